@@ -73,6 +73,25 @@ type merged struct {
 	GoVersion  string
 }
 
+// absorb merges the result of a later round of worker processes.
+func (m *merged) absorb(o *merged) {
+	m.Runs += o.Runs
+	m.WallS += o.WallS
+	for k, v := range o.Stats {
+		if strings.HasPrefix(k, "max_") {
+			if v > m.Stats[k] {
+				m.Stats[k] = v
+			}
+		} else {
+			m.Stats[k] += v
+		}
+	}
+	m.Violations = append(m.Violations, o.Violations...)
+	for k, v := range o.Records {
+		m.Records[k] = v
+	}
+}
+
 // runBatch runs W single-threaded simulator processes in parallel.
 func (p *Pipeline) runBatch(s batchSpec) *merged {
 	res := make([]*BatchResult, s.Workers)
